@@ -118,7 +118,7 @@ PROPS["C05"] = {
     "outside": "hash and cipher internals; responses longer than 40 bytes",
     "assumptions": ["block ciphers are permutations per key (E/D inverse)"],
     "jobs": [
-        {"func": "verifH_C05_bac", "pkg": "bac", "params": {"n": [24], "mode": [0, 1, 2, 3], "othermrz": 0}, "params_thorough": {"n": [24, 25, 37]}, "unwind": 300, "canon_all": True, "expect_reach": ["ran", "success", "failed"]},
+        {"func": "verifH_C05_bac", "pkg": "bac", "params": {"n": [24], "mode": [0, 1, 2, 3], "othermrz": 0}, "params_thorough": {"n": [24, 25, 37]}, "unwind": 300, "canon_all": True, "timeout_ms": 120000, "expect_reach": ["ran", "success", "failed"]},
     ],
 }
 
